@@ -213,7 +213,7 @@ def _child_main(rfd, wfd, workdir, decl, opts, bytecode_on, refs, free_run, more
             except BaseException as e:
                 result("load", raises=type(e).__name__)
                 raise
-            result("load", cookie=getattr(m, "BISTURI_PACKET_COOKIE", None),
+            result("load", cookie=getattr(m, "BISTURI_PACKET_COOKIE", None),      # (informational)
                    fns=[n for n in ("pack_impl", "unpack_impl") if hasattr(m, n)])
             return m
 
